@@ -34,8 +34,55 @@ class B64Rules:
             raise
         self.b64 = prog.globals.get('b64_tab', {}).get('value')
         self.hex = prog.globals.get('hex_tab', {}).get('value')
+        self.alpha_fn = None
+        self.alpha_where = (prog.globals.get('b64_tab') or {}).get('file')
+        if not isinstance(self.b64, list):
+            self.find_alphabet_function()
         if not isinstance(self.b64, list) or not isinstance(self.hex, list):
             raise AnalysisBroken('base64 tables not found')
+
+    def find_alphabet_function(self):
+        """The alphabet as a function of the 6-bit value instead of a table: the one-integer-parameter function the encoder calls for
+        every output symbol.  Evaluated (abstractly, on constants) over 0..255; used as the table alphabet[x & 63] when that is what it is
+        on the whole range, else as a table on 0..63 only."""
+        prog = self.prog
+        cands = {}
+        for n in walk(self.enc['body']):
+            if n['k'] == 'CallExpr' and n.get('callee', {}).get('m') in prog.functions and len(n.get('args', [])) == 1:
+                g = prog.functions[n['callee']['m']]
+                if len(g['params']) == 1 and prog.type(g['params'][0]['t']).get('k') == 'int' and prog.type(g['ret']).get('k') == 'int':
+                    cands[g['id']] = g
+        if len(cands) != 1:
+            return
+        g = next(iter(cands.values()))
+        tab = []
+        for x in range(256):
+            I = interp.Interp(prog, models=self.mdl())
+            r = I.run(g, interp.State(), args=[C(x)])
+            if len(r) != 1 or r[0][1][0] != 'c':
+                return
+            tab.append(r[0][1][1] & 0xff)
+        self.alpha_fn = g
+        self.alpha_masked = all(tab[x] == tab[x & 63] for x in range(256))
+        self.b64 = tab[:64]
+        self.alpha_where = g['file']
+
+    def encoder_models(self, I):
+        mdl = I.models
+        if self.alpha_fn is not None:
+            B = self
+
+            def m_alpha(I2, st, fr, n, this, args, an):
+                a = args[0]
+                if B.alpha_masked:
+                    a = binop('&', a, C(63), st.sym)
+                r = rng(a, st.sym) if is_int(a) else None
+                if a[0] == 'c':
+                    return [(st, C(B.b64[a[1] & 63]))]
+                if r is None or r[0] < 0 or r[1] > 63:
+                    return None
+                return [(st, ('tl', 'b64_tab', a))]
+            mdl[self.alpha_fn['q']] = m_alpha
 
     def mdl(self):
         m = dict(models.STD_MODELS)
@@ -46,7 +93,7 @@ class B64Rules:
     # ------------------------------------------------------------------ tables
     def tables(self):
         rec = self.rec
-        where = self.prog.globals['b64_tab']['file']
+        where = self.alpha_where
         ok = len(self.b64) == 64 and bytes(self.b64).decode('latin-1') == ALPHABET
         rec.ob('R16.t', 'R16.t@b64_tab', ok, where, 'b64_tab is the RFC 4648 alphabet: %s' % ('yes' if ok else 'NO'))
         inv = [255] * len(self.hex)
@@ -67,10 +114,9 @@ class B64Rules:
             I = interp.Interp(prog, models=self.mdl())
             I.concrete_loops = True
             I.name_intervals = False
+            # the facts loader hands out the same list object for the table
             I.symbolic_tables = {id(self.b64): 'b64_tab'}
-            # the facts loader hands out the same list object for the table: find it
-            g = prog.globals['b64_tab']['value']
-            I.symbolic_tables = {id(g): 'b64_tab'}
+            self.encoder_models(I)
             st = interp.State()
             for i in range(n):
                 st.sym['x%d' % i] = (0, 255)
@@ -325,8 +371,8 @@ def _decoder(self):
         I = interp.Interp(prog, models=self.mdl())
         I.concrete_loops = True
         I.name_intervals = False
-        gb, gh = prog.globals['b64_tab']['value'], prog.globals['hex_tab']['value']
-        I.symbolic_tables = {id(gb): 'b64_tab', id(gh): 'hex_tab'}
+        gh = prog.globals['hex_tab']['value']
+        I.symbolic_tables = {id(self.b64): 'b64_tab', id(gh): 'hex_tab'}
         I.inverse_tables = {'hex_tab': 'b64_tab'}
         st = interp.State()
         vals = []
